@@ -61,7 +61,7 @@ theorem Part.mono {α : Type} {m : Mem} {p : Prog α} {Q R : α → Mem → Prop
     Part m p R := fun m' a e => hq a m' (h m' a e)
 
 section
-variable {c : Cfg} {H : Nat → Prop} {m : Mem}
+variable {c : Cfg} {H : Nat → Nat} {m : Mem}
 
 /-- exact result of `Locals::get` -/
 theorem locals_get_exact (cls loc : Nat) (tree : Option Nat) (n : Nat) (hcls : cls < 8)
@@ -307,12 +307,12 @@ theorem slot_of_slotFree (tr i : Nat) (h : 1 ≤ m.slotFree tr i) :
     offline trees, more trees than slots: a base-order allocation through the slot succeeds
     whenever any frame is free — whether the frame was freed through the slot or without naming
     it, and without a drain. -/
-theorem single_slot_get_complete (ok : CfgOk c) (inv : UpperInv0 c (fun _ => False) m) (r : Request) (ho : r.order = 0)
+theorem single_slot_get_complete (ok : CfgOk c) (inv : UpperInv0 c (fun _ => 0) m) (r : Request) (ho : r.order = 0)
     (hcls : r.cls < 8) (lo : Nat) (hlo : r.loc = some lo) (rng : Nat × Nat) (hrng : c.slotRange r.cls = some rng)
     (hloc : lo < rng.2) (hnt : rng.2 < c.ntrees) (hv : C08.ArgsValid c 0 r)
     (hsingle : ∀ s (l' : LTree), m.slots[s]? = some l' → l'.present = true → s = rng.1 + lo)
     (f : Nat) (hfree : m.allocated c.geom f = false) :
-    Runs m (get c none r) (fun res m' => (∃ x, res = .ok x) ∧ UpperInv0 c (fun _ => False) m' ∧ GetOutcome c m 0 none res m') := by
+    Runs m (get c none r) (fun res m' => (∃ x, res = .ok x) ∧ UpperInv0 c (fun _ => 0) m' ∧ GetOutcome c m 0 none res m') := by
   have okg := ok.geom.toGeomOk
   have hntp : 0 < c.ntrees := by omega
   obtain ⟨l, hl⟩ := inv.slot_get ok r.cls rng hrng lo hloc
@@ -336,7 +336,7 @@ theorem single_slot_get_complete (ok : CfgOk c) (inv : UpperInv0 c (fun _ => Fal
     have : f / c.geom.treeFrames * c.geom.treeFrames + f % c.geom.treeFrames = f := by
       have := Nat.div_add_mod f c.geom.treeFrames; rw [Nat.mul_comm] at this; exact this
     rw [this, hfree]; rfl
-  have hceq := inv.counterEq _ ti hti (fun h => h)
+  have hceq := inv.counterEq _ ti hti rfl
   -- what a failing `get_local` implies: some unreserved tree has a positive counter
   have husable : (l.present = false ∨ (l.present = true ∧ l.free = 0 ∧
       ∀ tt : Tree, m.trees[l.row / c.geom.treeRows]? = some tt → ¬ (tt.reserved = true ∧ tt.free ≥ 1))) →
@@ -374,7 +374,7 @@ theorem single_slot_get_complete (ok : CfgOk c) (inv : UpperInv0 c (fun _ => Fal
   apply Runs.bind (classLocals_runs m r.cls hcls (fun x m' => x = some rng.2 ∧ m = m') (by rw [hrng]; exact ⟨rfl, rfl⟩))
   rintro _ _ ⟨rfl, rfl⟩
   have hfirst : Runs m (getFirst c r (some rng.2))
-      (fun res m' => res ≠ .error .memory ∧ (UpperInv0 c (fun _ => False) m' ∧ GetOutcome c m 0 none res m')) := by
+      (fun res m' => res ≠ .error .memory ∧ (UpperInv0 c (fun _ => 0) m' ∧ GetOutcome c m 0 none res m')) := by
     unfold getFirst
     simp only [Option.getD_some, hlo]
     have hlen : ¬ rng.2 = 0 := by omega
